@@ -21,7 +21,7 @@ RULE = ("cases = 1-6 recordings (optionally mixed time steps) x processing metho
         "process with method A then method B on the same recordings; interleaved settings objects) followed by in-place "
         "and by-assignment mutation of every array/list/dict reachable from the recordings and the settings; plus a family "
         "aimed at the FFT length that process() leaves in the settings object (fft_settings={'n': None}; an interleaved call "
-        "on recordings longer than 2^15 samples) with a mechanism test (fresh settings reproduce run 1, pinned FFT length run 2); "
+        "on recordings longer than 2^15 samples with the same or with another, equal settings object) with a mechanism test (fresh settings reproduce run 1, pinned FFT length run 2); "
         "non-trivial = Tukey width > 0 (an in-place taper is invisible for width 0); distinct = (method, alpha, n "
         "recordings, dts, history kind) signatures")
 ASSUMPTIONS = [
@@ -203,8 +203,7 @@ def fam_history(ctx, rng):
     num_keep = snap.snap(result_numeric(keep))
     meta_keep = snap.snap(getattr(keep, "meta", None))
     leaves = [l for o in list(recs) + [st] for l in snap.mutable_leaves(o)]
-    for _, x in leaves:
-        snap.poke(x)
+    undo = [snap.poke(x) for _, x in leaves]
     for r in recs:                         # by assignment as well
         r.ns.amplitude = r.ns.amplitude * 0 + 7
         r.meta = {"replaced": True}
@@ -222,6 +221,9 @@ def fam_history(ctx, rng):
                   "were modified afterwards", differences=snap.diff(meta_keep, snap.snap(getattr(keep, "meta", None)))[:5], **info)
     else:
         ctx.check(True, "result-meta-independent-of-later-mutation")
+    for u in reversed(undo):                # leave nothing behind should a poked object be shared with anything else
+        if u is not None:
+            u()
     if cfg["alpha"] > 0:
         ctx.nontrivial([cfg["method"], cfg["alpha"], len(items), dt, hist])
     ctx.state([cfg["kind"], cfg["alpha"] > 0, hist])
@@ -234,7 +236,7 @@ def fam_fft_length_persistence(ctx, rng):
     items, dt, n = gen_items(rng)
     kind = str(rng.choice(["freq", "single", "rotdpp", "azimuthal"]))
     cfg = gen_cfg(rng, dt, n, kind)
-    variant = str(rng.choice(["n-none", "interleaved-longer-recordings"]))
+    variant = str(rng.choice(["n-none", "interleaved-longer-recordings", "longer-recordings-with-another-settings-object"]))
     cfg["user_n"] = None
     ctx.describe(n_recordings=len(items), dt=dt, n=n, variant=variant, **cfg)
 
@@ -251,6 +253,10 @@ def fam_fft_length_persistence(ctx, rng):
             if variant == "interleaved-longer-recordings":
                 long_items = [tuple(gen.recording_arrays(rng, 33000, "white", 1.0)) + (dt,)]
                 hvsrpy.process(recs_of(long_items), st)
+            elif variant == "longer-recordings-with-another-settings-object":
+                # an unrelated call in the same session (its own, equal, settings object) must leave `st` alone
+                long_items = [tuple(gen.recording_arrays(rng, 33000, "white", 1.0)) + (dt,)]
+                hvsrpy.process(recs_of(long_items), copy.deepcopy(pristine))
             fft_now = copy.deepcopy(st.fft_settings)
             r2 = snap.snap(result_numeric(hvsrpy.process(recs, st)))
             # is the difference explained by nothing but the FFT length left in the settings object?
@@ -266,6 +272,10 @@ def fam_fft_length_persistence(ctx, rng):
     ctx.check(r1 == r2, "repeatable", "the same recordings processed again with the same settings object give a different result",
               mechanism=variant, explained_by_persisted_fft_length=bool(explained), fft_settings_left_in_object=fft_now,
               method=cfg["method"], differences=snap.diff(r1, r2)[:3])
+    # an equal, newly made settings object reproduces the first result whatever was processed in between
+    ctx.check(fresh == r1, "repeatable", "an equal, newly constructed settings object does not reproduce the first result "
+              "after other calls in the same session (state kept outside the objects)", mechanism="state-outside-the-objects",
+              variant=variant, method=cfg["method"], differences=snap.diff(r1, fresh)[:3])
     ctx.nontrivial([variant, cfg["method"], len(items), n, dt])
 
 
